@@ -24,7 +24,8 @@ REQUIRED_THEOREMS = ['frame', 'history_registry', 'history_independent', 'repeat
                      'choose_first', 'named_same', 'aliasing_counterexample']
 RULE = ('pool of generated/copied files of self-describing formats (netcdf, IOAPI netcdf, uamiv, '
         'lateral_boundary, humidity, vertical_diffusivity, ffi1001, csv) each with its own extension, '
-        'without extension and with a misleading extension; random open histories of length 0..8 followed by '
+        'without extension and with a misleading extension, plus every sample under testcase/ (also ones on which '
+        'some isMine raises); random histories of length 0..9 of auto-detecting and format-named opens followed by '
         'a probe, each in a freshly forked process; compared: reader chosen at every step and registry '
         'order after every step (model), probe reader and data digest vs a fresh process (oracle), '
         'auto-detected vs explicitly named open; non-trivial = history contains at least one '
@@ -99,6 +100,17 @@ def _build_pool():
             p = os.path.join(d, '%s_%s%s' % (kind, suffix, ext))
             shutil.copyfile(p0, p)
             add('%s_%s' % (kind, suffix), p)
+    # every other sample shipped with the library (not self-describing: used as history material and probes)
+    tdir = os.path.dirname(tc.__file__)
+    for root, _, fs in os.walk(tdir):
+        for fn in sorted(fs):
+            if fn.startswith('test.') and not fn.endswith('.check') and not fn.endswith('.py'):
+                key = 'tc_' + fn[5:].replace('.', '_')
+                if key in pool or os.path.getsize(os.path.join(root, fn)) > 3000000:
+                    continue
+                pth = os.path.join(d, 'tc_' + fn[5:])
+                shutil.copyfile(os.path.join(root, fn), pth)
+                add(key, pth)
     p = os.path.join(d, 'tab_own.csv')
     with open(p, 'w') as f:
         f.write('a,b\n1,2\n3,4\n')
@@ -197,8 +209,9 @@ def _run_history(pool, classes, hist, probe, named):
     from PseudoNetCDF import _getreader as g
     cid = {c: i for i, c in enumerate(classes)}
     steps = []
-    for key in hist + [probe]:
-        r = _open_one(pnc, pool[key], cid)
+    for key, fmt in hist + [[probe, None]]:
+        kw = dict(format=fmt) if fmt else {}
+        r = _open_one(pnc, pool[key], cid, **kw)
         r['reg'] = [k for k, v in g._readers]
         steps.append(r)
     res = dict(steps=steps)
@@ -224,21 +237,50 @@ def _named_for(key):
     return NAMED.get(key.rsplit('_', 1)[0])
 
 
+def _names_for(base, key, rng):
+    """a registered name of a reader that accepts the file (or, sometimes, any name)"""
+    acc = base['acc'][key]['yes']
+    names = [k for k, c in base['reg'] if c in acc and '.' not in k and k != 'Dataset']
+    if names and rng.random() < 0.85:
+        return rng.choice(names)
+    return rng.choice([k for k, c in base['reg'] if '.' not in k])
+
+
 def gen(rng, tier):
     P = _build_pool()
     keys = sorted(P['files'])
-    n = 40 if tier == 'quick' else 1200
+    sd = [k for k in keys if not k.startswith('tc_')]
+    n = 60 if tier == 'quick' else 1500
     out = []
     for i in range(n):
         L = rng.randint(0, 8)
-        hist = [rng.choice(keys) for _ in range(L)]
+        hist = []
+        for _ in range(L):
+            key = rng.choice(keys if rng.random() < 0.4 else sd)
+            fmt = _names_for(P['base'], key, rng) if rng.random() < 0.3 else None
+            hist.append([key, fmt])
         if rng.random() < 0.3 and hist:
             hist = hist + [hist[-1]]
-        probe = rng.choice(keys)
+        probe = rng.choice(sd if rng.random() < 0.8 else keys)
+        if rng.random() < 0.35:
+            # an earlier open of the probe itself, with a format named
+            hist.insert(rng.randint(0, len(hist)), [probe, _names_for(P['base'], probe, rng)])
         out.append(dict(hist=hist, probe=probe))
+    # structured: an auto-detecting open on which some reader's isMine raises, then a probe that reader accepts
+    base = P['base']
+    pairs = []
+    for f in keys:
+        for r in base['acc'][f]['raises']:
+            for g2 in keys:
+                if r in base['acc'][g2]['yes']:
+                    pairs.append((f, g2))
+    rng.shuffle(pairs)
+    for f, g2 in pairs[:(12 if tier == 'quick' else 200)]:
+        pre = [[rng.choice(sd), None]] if rng.random() < 0.5 else []
+        out.append(dict(hist=pre + [[f, None]], probe=g2))
     # the history that used to break: an .nc open before an extension-less netCDF probe
-    out.append(dict(hist=['plain_own'], probe='ioapi_noext'))
-    out.append(dict(hist=['plain_own', 'plain_own', 'uamiv_nc'], probe='plain_noext'))
+    out.append(dict(hist=[['plain_own', None]], probe='ioapi_noext'))
+    out.append(dict(hist=[['plain_own', None], ['plain_own', None], ['uamiv_nc', None]], probe='plain_noext'))
     return out
 
 
@@ -261,10 +303,11 @@ def to_line(case, res):
     base = P['base']
     reg = ','.join('%s:%d' % (k.replace(',', '_').replace(' ', '_'), c) for k, c in base['reg'])
     opens = []
-    for key in case['hist'] + [case['probe']]:
+    for key, fmt in case['hist'] + [[case['probe'], None]]:
         a = base['acc'][key]
         ext = _ext(P['files'][key]) or '-'
-        opens.append('%s/%s/%s' % (ext, '+'.join(map(str, a['yes'])) or '-', '+'.join(map(str, a['raises'])) or '-'))
+        opens.append('%s/%s/%s/%s' % (ext, '+'.join(map(str, a['yes'])) or '-',
+                                      '+'.join(map(str, a['raises'])) or '-', fmt or '-'))
     return 'c15 hist %s %s' % (reg, ','.join(opens))
 
 
@@ -280,7 +323,10 @@ def agree(case, out, res):
             # when the open succeeded; a TypeError means no reader accepted
             if m == 'TypeError' and s['err'] == 'TypeError':
                 continue
-            if m.isdigit():
+            if m == 'KeyError' and s['err'] == 'KeyError':
+                continue
+            if m == 'isMineRaised' or m.isdigit():
+                # isMine raised (any exception class) / the selected reader failed to open the file
                 continue
             return 'step %d: model %s, impl raised %s' % (i, m, s['err'])
         if not m.isdigit():
@@ -333,8 +379,8 @@ def classify(case, failure, model_out):
 def nontrivial(case, res):
     P = _build_pool()
     pk = case['probe'].rsplit('_', 1)[0]
-    for h in case['hist']:
-        if _ext(P['files'][h]) and h.rsplit('_', 1)[0] != pk:
+    for h, fmt in case['hist']:
+        if (_ext(P['files'][h]) or fmt) and (h.rsplit('_', 1)[0] != pk or fmt):
             return True
     return False
 
